@@ -36,7 +36,9 @@ static int process_data(xfrm_stream_t *stream, const void *in,
 	if (flush_mode < 0 || flush_mode >= XFRM_STREAM_FLUSH_COUNT)
 		flush_mode = XFRM_STREAM_FLUSH_NONE;
 
-	while (in_size > 0 && out_size > 0) {
+	while ((in_size > 0 || (gzip->compress &&
+				flush_mode == XFRM_STREAM_FLUSH_FULL)) &&
+	       out_size > 0) {
 		gzip->strm.next_in = (void *)in;
 		gzip->strm.avail_in = in_size;
 
@@ -77,6 +79,9 @@ static int process_data(xfrm_stream_t *stream, const void *in,
 
 		if (ret == Z_BUF_ERROR)
 			return XFRM_STREAM_BUFFER_FULL;
+
+		if (in_size == 0 && diff == 0)
+			break;
 	}
 
 	return XFRM_STREAM_OK;
